@@ -35,6 +35,10 @@ H.append({"name":"H_ops","tiers":T,"scale":"m5","bounds":"MaxDataOp=5; bs 2..3; 
   "param_sets": sets([2,3], one(range(0,5)), range(5,10), [-1])})
 H.append({"name":"H_ops","tiers":T,"scale":"m3","bounds":"small alphabet {0,1,2} (the property's literal bound): bs 2..3, two old files 0..4 each, new 0..8","max_seconds":600,
   "param_sets": sets([2,3], two(range(0,5),7), range(5,9), [-1], alpha=3)})
+H.append({"name":"H_ops","tiers":["thorough"],"max_steps":4000000000,"max_seconds":1500,"bounds":"REGIME R (MaxDataOp not scaled, limit written out as 4 MiB in the oracle): block size 4096, one old file of 2 blocks; new = 4 MiB-1 / 4 MiB / 4 MiB+1 / 4 MiB+4096+5 fresh bytes followed by the old file's first block",
+  "param_sets":[{"bs":4096,"n0":8192,"n1":-1,"n2":-1,"nnew":0,"pref":0,"alpha":0,"real":r} for r in (4*1024*1024-1,4*1024*1024,4*1024*1024+1,4*1024*1024+4096+5)]})
+H.append({"name":"H_ops","tiers":["quick","thorough"],"max_steps":2000000000,"bounds":"REGIME R, smaller: block size 4096, 300000 fresh bytes followed by the old file's first block (buffer handling at the real buffer size)",
+  "param_sets":[{"bs":4096,"n0":8192,"n1":-1,"n2":-1,"nnew":0,"pref":0,"alpha":0,"real":300000}]})
 json.dump({"property":"C11","package":"c11","scale":scale,"harnesses":H,
  "stubs":["crypto/md5 -> injective model (content + length), so strong-hash collisions are excluded","context.Background -> model context"],
  "outside":["block sizes, file counts and lengths beyond the listed grids","the real 4 MiB MaxDataOp (its declared value is scaled to 3..8 by an overlay; every use is the real code)","new content > 8 MiB at 64 KiB blocks (the property's random regime) is not run symbolically"]},
